@@ -164,7 +164,15 @@ void harness (void)
    block of the requested size with arbitrary contents is returned (a superset
    of realloc's copy-prefix behaviour; crypt_ra overwrites the block anyway) */
 static int ra_calls; static void *ra_old; static size_t ra_size; static bool ra_failed;
-static bool ra_old_zero;             /* ghost: the old block had been erased */
+/* memset (libc), modelled by its contract through a ghost log instead of a
+   32 KiB write (same reasoning as explicit_bzero's event model) */
+static int ms_calls_; static void *ms_p; static int ms_c; static size_t ms_n; static unsigned ms_seq_;
+void *memset (void *s, int c, size_t n)
+{
+  __CPROVER_assert (n == 0 || __CPROVER_w_ok (s, n), "[C04] memset: region is writable");
+  ms_calls_++; ms_p = s; ms_c = c; ms_n = n; ms_seq_ = xv_event_seq++;
+  return s;
+}
 void *realloc (void *p, size_t n)
 {
   ra_calls++; ra_old = p; ra_size = n;
@@ -192,14 +200,17 @@ void harness (void)
   XV_IN (_Bool, have_block, nondet_bool);
   /* the caller's block: absent, or a malloc'd block of max(size0, 1) bytes
      whose recorded size may be negative, zero or too small */
-  XV_ASSUME (size0 < (int) sizeof (struct crypt_data));
-  size_t real = size0 > 0 ? (size_t) size0 : 1;
-  void *dp = have_block ? malloc (real) : NULL;
+  /* Bound of this job: an undersized block's recorded size is at most 64
+     (the recorded size only reaches the comparison with sizeof (struct
+     crypt_data) and explicit_bzero's length argument; the block itself is a
+     constant 64 bytes so that CBMC does not need a symbolic-size object).  */
+  XV_ASSUME (size0 <= 64);
+  void *dp = have_block ? malloc (64) : NULL;
   XV_ASSUME (!have_block || dp != NULL);
   void *dp0 = dp;
   int sz = size0;
   char set[3] = { '$', '1', 0 };
-  ra_calls = 0; dc_calls = 0; xv_bzero_n = 0; xv_event_seq = 1;
+  ra_calls = 0; dc_calls = 0; xv_bzero_n = 0; xv_event_seq = 1; ms_calls_ = 0;
   dc_phrase = "pw"; dc_setting = set;
   errno = 0;
   /* dc_data is only known after the reallocation */
@@ -223,6 +234,8 @@ void harness (void)
       XV_ASSERT ("C14", dp != NULL && sz == (int) sizeof (struct crypt_data) && __CPROVER_OBJECT_SIZE (dp) == sizeof (struct crypt_data)
                  && __CPROVER_POINTER_OFFSET (dp) == 0,
                  "*data is the new live block and *size its size");
+      XV_ASSERT ("C14", ms_calls_ == 1 && ms_p == dp && ms_c == 0 && ms_n == sizeof (struct crypt_data),
+                 "the new block is zero-initialised over its whole size (memset's contract)");
       XV_ASSERT ("C14", dc_calls == 1 && r == (((struct crypt_data *) dp)->output[0] == '*' ? NULL : ((struct crypt_data *) dp)->output),
                  "hashing proceeds in the new block; a non-NULL result points into it");
       XV_CANARY ("realloc succeeded");
@@ -300,5 +313,242 @@ void harness (void)
   XV_ASSERT ("C18,C19", p == NULL, "no default-capable method is enabled: NULL");
 #endif
   XV_CANARY ("preferred");
+}
+#endif
+
+/* ------------------------------------------------------- crypt_gensalt_rn */
+#if defined A_gensalt_rn || defined A_gensalt_ra
+#ifndef XV_NATIVE
+/* L0 contract of the per-method salt generators (enforced per method by the
+   gensalt_* jobs):
+   requires: output_size >= 3, output holds the failure token, rbytes has
+             nrbytes readable bytes
+   assigns:  output[0 .. output_size), errno
+   ensures:  failure: output untouched, errno EINVAL or ERANGE
+             success: a NUL-terminated string shorter than output_size (and
+             than 192), not starting with '*'  */
+static int gs_calls, gs_method; static bool gs_args_ok, gs_failed; static unsigned gs_seq;
+static unsigned long gs_count; static const uint8_t *gs_rb; static size_t gs_nrb; static uint8_t *gs_out; static size_t gs_osz;
+static void gs_stub (int id, unsigned long count, const uint8_t *rbytes, size_t nrbytes, uint8_t *output, size_t output_size)
+{
+  gs_calls++; gs_method = id; gs_seq = xv_event_seq++;
+  gs_count = count; gs_rb = rbytes; gs_nrb = nrbytes; gs_out = output; gs_osz = output_size;
+  XV_STUBPRE ("C13", output_size >= 3 && output[0] == '*' && output[1] == '0' && output[2] == 0,
+              "gensalt method: at least 3 bytes of output, holding the failure token");
+  XV_STUBPRE ("C04", nrbytes == 0 || XV_R_OK (rbytes, nrbytes), "gensalt method: rbytes has nrbytes readable bytes");
+  gs_failed = nondet_bool ();
+  if (gs_failed)
+    {
+      int e = nondet_int ();
+      __CPROVER_assume (e == EINVAL || e == ERANGE);
+      errno = e;
+    }
+  else
+    {
+      size_t n = nondet_size ();
+      __CPROVER_assume (n >= 1 && n < output_size && n < 192);
+      for (size_t i = 0; i < 192; i++)   /* XV_UNWIND 192 */
+        if (i <= n)
+          {
+            char c = nondet_char ();
+            __CPROVER_assume (c != 0 && (i != 0 || c != '*'));
+            output[i] = i == n ? 0 : (uint8_t) c;
+          }
+    }
+}
+#define XV_GS_STUB(name, id) \
+  void name (unsigned long count, const uint8_t *rbytes, size_t nrbytes, uint8_t *output, size_t output_size) \
+  { gs_stub (id, count, rbytes, nrbytes, output, output_size); }
+#if INCLUDE_sha1crypt
+XV_GS_STUB (gensalt_sha1crypt_rn, M_SHA1CRYPT)
+#endif
+#if INCLUDE_bcrypt_a
+XV_GS_STUB (gensalt_bcrypt_a_rn, M_BCRYPT_A)
+#endif
+#if INCLUDE_bcrypt
+XV_GS_STUB (gensalt_bcrypt_rn, M_BCRYPT_B)
+#endif
+#if INCLUDE_bcrypt_x
+XV_GS_STUB (gensalt_bcrypt_x_rn, M_BCRYPT_X)
+#endif
+#if INCLUDE_bcrypt_y
+XV_GS_STUB (gensalt_bcrypt_y_rn, M_BCRYPT_Y)
+#endif
+#if INCLUDE_gost_yescrypt
+XV_GS_STUB (gensalt_gost_yescrypt_rn, M_GOST_YESCRYPT)
+#endif
+#if INCLUDE_sunmd5
+XV_GS_STUB (gensalt_sunmd5_rn, M_SUNMD5)
+#endif
+#if INCLUDE_md5crypt
+XV_GS_STUB (gensalt_md5crypt_rn, M_MD5CRYPT)
+#endif
+#if INCLUDE_nt
+XV_GS_STUB (gensalt_nt_rn, M_NT)
+#endif
+#if INCLUDE_sha256crypt
+XV_GS_STUB (gensalt_sha256crypt_rn, M_SHA256CRYPT)
+#endif
+#if INCLUDE_sha512crypt
+XV_GS_STUB (gensalt_sha512crypt_rn, M_SHA512CRYPT)
+#endif
+#if INCLUDE_scrypt
+XV_GS_STUB (gensalt_scrypt_rn, M_SCRYPT)
+#endif
+#if INCLUDE_yescrypt
+XV_GS_STUB (gensalt_yescrypt_rn, M_YESCRYPT)
+#endif
+#if INCLUDE_bsdicrypt
+XV_GS_STUB (gensalt_bsdicrypt_rn, M_BSDICRYPT)
+#endif
+#if INCLUDE_bigcrypt
+XV_GS_STUB (gensalt_bigcrypt_rn, M_BIGCRYPT)
+#endif
+#if INCLUDE_descrypt
+XV_GS_STUB (gensalt_descrypt_rn, M_DESCRYPT)
+#endif
+
+/* get_random_bytes contract (lib/util-get-random-bytes.c; enforced by job
+   get_random_bytes): fills exactly buf[0..buflen) from the OS generator and
+   returns true, or returns false with errno set */
+static int rb_calls; static void *rb_buf; static size_t rb_len; static bool rb_failed;
+bool get_random_bytes (void *buf, size_t buflen)
+{
+  rb_calls++; rb_buf = buf; rb_len = buflen;
+  XV_STUBPRE ("C04", buflen == 0 || XV_W_OK (buf, buflen), "get_random_bytes: buffer is writable");
+  rb_failed = nondet_bool ();
+  if (rb_failed) { errno = ENOSYS; return false; }
+  XV_HAVOC_SLICE (buf, buflen);
+  return true;
+}
+#endif /* !XV_NATIVE */
+#endif
+
+#if defined A_gensalt_rn
+void harness (void)
+{
+  XV_IN (_Bool, prefix_null, nondet_bool);
+  XV_IN (_Bool, rbytes_null, nondet_bool);
+  XV_IN (unsigned long, count, nondet_ulong);
+  XV_IN (int, nrbytes, nondet_int);
+  XV_IN (int, osz, nondet_int);
+  XV_IN (size_t, pfx_len, nondet_size);
+  XV_ASSUME (pfx_len <= XV_MAXOBJ);
+  XV_IN_BYTES (pfx, prefix, pfx_len, 1);
+  pfx[pfx_len] = 0;
+  bool strs_ok = true;
+  for (size_t k = 0; k < 8; k++)
+    if (k < pfx_len && pfx[k] == 0) strs_ok = false;
+  XV_ASSUME (strs_ok);
+  xv_str_reset ();
+  xv_str_register ((const char *) pfx, pfx_len);
+  /* the caller's random bytes: exactly max(nrbytes, 0) of them */
+  size_t rlen = nrbytes > 0 ? (size_t) nrbytes : 0;
+  XV_ASSUME (rlen <= 300);
+  unsigned char *rb = malloc (rlen);
+  XV_ASSUME (rb != NULL);
+  /* constant 256-byte output object, arbitrary output_size (see gensalt_sha.c) */
+  unsigned char *out = malloc (256);
+  XV_ASSUME (out != NULL);
+  XV_IN (size_t, fk, nondet_size);
+  XV_ASSUME (fk < 256);
+  unsigned char f0 = out[fk];
+  gs_calls = 0; rb_calls = 0; xv_bzero_n = 0; xv_event_seq = 1; errno = 0;
+  const char *prefix = prefix_null ? NULL : (const char *) pfx;
+  char *r = crypt_gensalt_rn (prefix, count, rbytes_null ? NULL : (const char *) rb, nrbytes, (char *) out, osz);
+
+  XV_ASSERT ("C13,C04", (osz > 0 && fk < (size_t) osz) || out[fk] == f0,
+             "nothing at or beyond output_size is written; nothing at all for sizes <= 0");
+  /* the method the prefix selects; NULL selects the build's preferred method */
+  int want;
+#ifdef HASH_ALGORITHM_DEFAULT
+  static const char dflt[] = HASH_ALGORITHM_DEFAULT;
+  if (prefix_null) want = spec_method_of_prefix ((const unsigned char *) dflt, sizeof dflt - 1);
+  else
+#else
+  if (prefix_null) want = -1;
+  else
+#endif
+    want = spec_method_of_prefix (pfx, pfx_len);
+
+  if (osz < 3)
+    {
+      XV_ASSERT ("C13", r == NULL && errno == ERANGE && gs_calls == 0, "sizes below 3: NULL with ERANGE, no method runs");
+      XV_ASSERT ("C13", osz != 2 || (out[0] == '*' && out[1] == 0), "size 2 leaves *");
+      XV_ASSERT ("C13", osz != 1 || out[0] == 0, "size 1 leaves the empty string");
+      XV_CANARY ("tiny buffer");
+      return;
+    }
+  if (want < 0)
+    {
+      XV_ASSERT ("C13,C19", r == NULL && errno == EINVAL && gs_calls == 0 && out[0] == '*' && out[1] == '0' && out[2] == 0,
+                 "unknown or disabled prefix: NULL with EINVAL and the failure token");
+      XV_CANARY ("unknown prefix");
+      return;
+    }
+  if (!rbytes_null && nrbytes < 0)
+    {
+      XV_ASSERT ("C04,C13", r == NULL && errno == EINVAL && gs_calls == 0 && out[0] == '*' && out[1] == '0' && out[2] == 0,
+                 "a negative length for caller-supplied random bytes is refused with EINVAL");
+      XV_CANARY ("negative nrbytes");
+      return;
+    }
+  if (rbytes_null && rb_failed)
+    {
+      XV_ASSERT ("C12,C13", r == NULL && gs_calls == 0 && out[0] == '*', "no OS randomness: NULL, token stays");
+      XV_CANARY ("entropy failure");
+      return;
+    }
+  XV_ASSERT ("C10,C18", gs_calls == 1 && gs_method == want && gs_count == count && gs_out == out && gs_osz == (size_t) osz,
+             "exactly one call of the selected method's generator with the caller's count, buffer and size");
+  if (rbytes_null)
+    {
+      XV_ASSERT ("C12", rb_calls == 1 && rb_len > 0 && gs_rb == rb_buf && gs_nrb == rb_len,
+                 "with rbytes == NULL exactly the bytes drawn from the OS generator are handed to the method");
+      XV_ASSERT ("C09", xv_bzero_n == 1 && xv_bzero_log[0].p == rb_buf && xv_bzero_log[0].n == rb_len && xv_bzero_log[0].seq > gs_seq,
+                 "the drawn random bytes are erased after the method returned");
+      XV_CANARY ("OS entropy path");
+    }
+  else
+    {
+      XV_ASSERT ("C10,C04", rb_calls == 0 && gs_rb == rb && nrbytes >= 0 && gs_nrb == (size_t) nrbytes,
+                 "caller-supplied random bytes are passed through with their length");
+      XV_CANARY ("caller entropy path");
+    }
+  XV_ASSERT ("C13,C10", (r == NULL) == gs_failed && (r == NULL || r == (char *) out),
+             "the result is the buffer on success and NULL on failure");
+  if (r == NULL)
+    XV_ASSERT ("C13", out[0] == '*' && out[1] == '0' && out[2] == 0 && (errno == EINVAL || errno == ERANGE),
+               "failure leaves the token and an errno of EINVAL or ERANGE");
+}
+#endif
+
+#if defined A_gensalt_ra
+/* crypt_gensalt_ra: crypt_gensalt_rn replaced by its contract */
+static int grn_calls; static char *grn_out; static int grn_osz; static bool grn_failed;
+char *crypt_gensalt_rn_stub (const char *prefix, unsigned long count, const char *rbytes, int nrbytes, char *output, int output_size)
+{
+  grn_calls++; grn_out = output; grn_osz = output_size;
+  XV_STUBPRE ("C04", output_size > 0 && XV_W_OK (output, (size_t) output_size), "crypt_gensalt_rn: output has output_size writable bytes");
+  grn_failed = nondet_bool ();
+  if (grn_failed) { errno = EINVAL; return 0; }
+  return output;
+}
+void harness (void)
+{
+  grn_calls = 0;
+  char *r = crypt_gensalt_ra ("$6$", 0, 0, 0);
+  if (r == NULL)
+    {
+      XV_CANARY ("NULL path");        /* malloc failed or the generator failed: nothing live (memory-leak check) */
+    }
+  else
+    {
+      XV_ASSERT ("C14,C10", grn_calls == 1 && r == grn_out && grn_osz == CRYPT_GENSALT_OUTPUT_SIZE
+                 && __CPROVER_OBJECT_SIZE (r) == CRYPT_GENSALT_OUTPUT_SIZE && __CPROVER_POINTER_OFFSET (r) == 0,
+                 "the result is a live malloc'd block of CRYPT_GENSALT_OUTPUT_SIZE bytes filled by crypt_gensalt_rn");
+      XV_CANARY ("success path");
+      free (r);
+    }
 }
 #endif
